@@ -100,7 +100,7 @@ def register(reg):
             " and form_data.integral_data[0].integrals[i].metadata()['quadrature_points'] == ghost('given')[i][3][0]"
             " and form_data.integral_data[0].integrals[i].metadata()['quadrature_weights'] == ghost('given')[i][3][1]) for i in range(2)])",
         ],
-        properties=["C11", "C01"], modular=False, name="_analyze_form#metadata-loop",
+        properties=["C11", "C01", "C06"], modular=False, name="_analyze_form#metadata-loop",
         bounded="2 integrals in one integral-data group; at most one quadrature element per integral",
         mutants=[('qd = int(np.max(integral.metadata()["estimated_polynomial_degree"]))', 'qd = 1'),
                  ("if qd < 0:", "if qd <= 0:")]))
